@@ -419,10 +419,22 @@ fn arrow(rng: &mut Rng, ctx: &mut Ctx) {
                 if order2 != order || ww.is_ok() != wg.is_ok() || (ww.is_ok() && want != got) { win_err = Some(format!("ports listed as {:?}: after export and import they are {:?} / the written file differs", order, order2)); }
             }
             if let Some(e) = win_err { return Err(format!("WINDOW {}", e)); }
+            // every exported per-character column, addressed by NAME, holds the values the spec puts at that field's offset in the
+            // occurrence of that frame (independent of the in-memory representation and of the import side)
+            { let tpl = slots_of(&r.start_block); let v = r.v;
+              for (ci, (port, fol)) in tpl.iter().enumerate() { for (kind, table) in [("pre", spec::PRE), ("post", spec::POST)] {
+                  let vis: Vec<&spec::F> = table.iter().filter(|x| gte(v, x.since.0, x.since.1)).collect();
+                  for (fi, f) in vis.iter().enumerate() { let path = format!("ports.P{}.{}.{}.{}", port + 1, if *fol { "follower" } else { "leader" }, kind, f.name);
+                      let col = match crate::arrowdump::leaf_values(&sa, &path) { Some(c) => c, None => return Err(format!("BYNAME exported array has no primitive column {}", path)) };
+                      for (i, fr) in r.frames.iter().enumerate() { if let Some(ev) = &fr.chars[ci].2 {
+                          let mut pay = fr.id.to_be_bytes().to_vec(); pay.push(*port); pay.push(*fol as u8); pay.extend(if kind == "pre" { &ev.pre } else { &ev.post });
+                          let e = spec::decode(table, v, &pay)[fi];
+                          if col.get(i) != Some(&e) { return Err(format!("BYNAME exported column {} row {} is {:?}, the field's value in that frame is {}", path, i, col.get(i), e)); } } } } } } }
             Ok::<_, String>((d, w.is_ok() && o == b, rows == n, lv))
         });
         let mut c = Case::new(format!("into {}", hex(&b)), String::new());
         match res { Err(_) => { c.impl_out = "panic".into(); if zero_ports { tags.push("zero-ports".into()); c.fail("C14", "KNOWN:zero-ports panic in into_struct_array (no occupied port)"); } else { c.fail("C14", "panic in into/from_struct_array"); } }
+            Ok(Err(e)) if e.starts_with("BYNAME ") => { c.impl_out = "byname".into(); c.fail("C14", e[7..].to_string()); }
             Ok(Err(e)) if e.starts_with("WINDOW ") => { c.impl_out = "window".into(); c.fail("C13", e[7..].to_string()); c.fail("C14", e[7..].to_string()); }
             Ok(Err(e)) => { c.impl_out = e; c.fail("C14", "well-formed replay rejected"); }
             Ok(Ok((d, same, rows, lv))) => { c.impl_out = format!("ok {}", d);
@@ -687,12 +699,13 @@ fn peppi_suite(rng: &mut Rng, ctx: &mut Ctx) {
                 let c = peppi::io::peppi::read(crate::suites2::Chunked::new(buf.clone(), plan.clone(), None), Some(&o)).map(|g| crate::suites2::game_sig(&g)).map_err(|e| e.to_string());
                 if a != c { let m = format!(".slpp read through a source with short reads {:?} (skip_frames={}) differs from the read from memory: {:?} vs {:?}", plan, skipf, c.as_ref().map(|s| &s[..s.len().min(80)]), a.as_ref().map(|s| &s[..s.len().min(80)])); fails.push(("C02".into(), m.clone())); if skipf { fails.push(("C10".into(), m.clone())); } fails.push(("C18".into(), m)); } } }
             // back to .slp
+            let mut rebuilt: Option<(Vec<u8>, Option<Vec<u8>>)> = None; // what the .slpp reader reconstructs from start.raw / end.raw, as JSON
             match peppi::io::peppi::read(Cursor::new(&buf), None) {
-                Ok(g2) => { let mut o = vec![]; if slippi::write(&mut o, &g2).is_err() || o != b { fails.push(("C02".into(), "slp -> slpp -> slp differs from the original".into())); }
+                Ok(g2) => { rebuilt = Some((serde_json::to_vec(&g2.start).unwrap(), g2.end.as_ref().map(|e| serde_json::to_vec(e).unwrap()))); let mut o = vec![]; if slippi::write(&mut o, &g2).is_err() || o != b { fails.push(("C02".into(), "slp -> slpp -> slp differs from the original".into())); }
                     if g2.hash != h0 { fails.push(("C02".into(), "stored hash changed through .slpp".into())); fails.push(("C11".into(), "stored hash not carried unchanged through .slpp".into())); }
                     if g2.quirks.map(|q| q.double_game_end) != q0 { fails.push(("C02".into(), "quirk flags changed through .slpp".into())); }
                     if g2.metadata != md0 { fails.push(("C16".into(), "metadata tree / key order changed through .slpp".into())); } }
-                Err(e) => { fails.push(("C02".into(), format!("written .slpp cannot be read: {}", e))); } }
+                Err(e) => { fails.push(("C02".into(), format!("written .slpp cannot be read: {}", e))); fails.push(("C18".into(), format!("the reader rejects the archive the writer produced: {}", e))); } }
             // skip-frames option of the .slpp reader
             match peppi::io::peppi::read(Cursor::new(&buf), Some(&peppi::io::peppi::de::Opts { skip_frames: true })) {
                 Ok(g3) => { if start_json(&g3.start) != start_json(&start) || end_json(&g3.end) != end_json(&endc) || g3.metadata != md0 { fails.push(("C10".into(), ".slpp skip-frames: start/end/metadata differ".into())); } if g3.frames.id.len() != 0 { fails.push(("C10".into(), ".slpp skip-frames returned frames".into())); }
@@ -705,8 +718,11 @@ fn peppi_suite(rng: &mut Rng, ctx: &mut Ctx) {
                 let content = match name.as_str() {
                     "peppi.json" => { if serde_json::from_slice::<serde_json::Value>(&c).is_err() { fails.push(("C18".into(), "peppi.json is not valid JSON".into())); } String::from_utf8(c).unwrap() }
                     "metadata.json" => { match serde_json::from_slice::<serde_json::Value>(&c) { Ok(serde_json::Value::Object(m)) => { if Some(&m) != md0.as_ref() { fails.push(("C16".into(), "metadata.json is not the metadata tree".into())); } format!("{{{}}}", json_dump(&m)) } Ok(_) => "null".into(), Err(_) => { fails.push(("C18".into(), "metadata.json is not valid JSON".into())); "?".into() } } }
-                    "start.json" => { let mut o2 = vec![]; let s = canon_start(&start, &start.bytes.0, &mut o2); if c != serde_json::to_vec(&start).unwrap() || serde_json::from_slice::<serde_json::Value>(&c).is_err() { fails.push(("C18".into(), "start.json is not the JSON rendering of the start block".into())); } s }
-                    "end.json" => { if Some(c.clone()) != endc.as_ref().map(|e| serde_json::to_vec(e).unwrap()) { fails.push(("C18".into(), "end.json is not the JSON rendering of the end block".into())); } canon_end(endc.as_ref().unwrap()) }
+                    "start.json" => { let mut o2 = vec![]; let s = canon_start(&start, &start.bytes.0, &mut o2); if c != serde_json::to_vec(&start).unwrap() || serde_json::from_slice::<serde_json::Value>(&c).is_err() { fails.push(("C18".into(), "start.json is not the JSON rendering of the start block".into())); }
+                        if let Some((sj, _)) = &rebuilt { if &c != sj { fails.push(("C18".into(), "start.json is not the JSON rendering of what the .slpp reader reconstructs from start.raw".into())); } } s }
+                    "end.json" => { if Some(c.clone()) != endc.as_ref().map(|e| serde_json::to_vec(e).unwrap()) { fails.push(("C18".into(), "end.json is not the JSON rendering of the end block".into())); }
+                        if let Some((_, ej)) = &rebuilt { if Some(&c) != ej.as_ref() { fails.push(("C18".into(), format!("end.json ({}) is not the JSON rendering of what the .slpp reader reconstructs from end.raw ({})", String::from_utf8_lossy(&c), ej.as_ref().map_or("none".to_string(), |x| String::from_utf8_lossy(x).to_string())))); } }
+                        canon_end(endc.as_ref().unwrap()) }
                     "frames.arrow" => { let mut rd = Cursor::new(&c[8..]); let md = read_stream_metadata(&mut rd).unwrap(); let mut sr = StreamReader::new(rd, md, None);
                         match sr.next() { Some(Ok(StreamState::Some(chunk))) => crate::arrowdump::dump(chunk.arrays()[0].as_ref()), _ => "?".into() } }
                     _ => hex(&c),
